@@ -199,9 +199,13 @@ func runC10(p *Prog, r *Report) {
 		}
 		r.End()
 	}
-	if want("C10.6") {
+	if want("C10.7") {
 		// the group leader writes ONE journal record for the whole group: all members survive a crash or none
-		ruleJournalWrite(p, r, "C10.6")
+		ruleJournalWrite(p, r, "C10.7")
+	}
+	if want("C10.8") {
+		// the leader's and the waiters' blocking channel operations all have a way out when the DB closes (shared with C09.5)
+		ruleChanInventory(p, r, "C10.8")
 	}
 	if want("C10.5") {
 		r.Begin("C10.5", "E-SIB", "Write and putRec agree on their lock-acquisition selects (same case sets, with and without merge)", 2)
